@@ -9,8 +9,7 @@ VARIABLE hist
 gvars == <<vars, hist>>
 
 FileCases == LET s == ndJsonDeserialize("cases.ndjson") IN {s[i] : i \in 1..Len(s)}
-GQuick    == Norm(GShapeQ \cup GHandQ) \cup FileCases
-GThorough == Norm(GShapeT \cup GHandT) \cup FileCases
+GSel == MCSel \cup FileCases
 
 Log(e) == hist' = Append(hist, e)
 GNext ==
